@@ -406,6 +406,68 @@ fn once_body_x(cause: Cause, meddle: bool) -> vsched::Body {
     })
 }
 
+/// An unsupervised actor whose state panics when it is dropped exits gracefully: the terminal event (which
+/// carries the state) is dropped inside the exit path itself, so the exit path unwinds half way through.
+/// The waiters, before and after, must still be released, with the status Stopped and the name gone.
+mod bomb {
+    use ractor::{Actor, ActorProcessingErr, ActorRef};
+    pub struct Bomb;
+    impl Drop for Bomb {
+        fn drop(&mut self) {
+            if !std::thread::panicking() {
+                panic!("the state's destructor panics");
+            }
+        }
+    }
+    pub struct B;
+    #[cfg_attr(feature = "alt", ractor::async_trait)]
+    impl Actor for B {
+        type Msg = u32;
+        type State = Bomb;
+        type Arguments = ();
+        async fn pre_start(&self, _m: ActorRef<u32>, _: ()) -> Result<Bomb, ActorProcessingErr> {
+            Ok(Bomb)
+        }
+    }
+}
+
+fn bomb_body(drain: bool) -> vsched::Body {
+    Arc::new(move || {
+        Box::pin(async move {
+            let (a, h) = Actor::spawn(Some("A".into()), bomb::B, ()).await.expect("spawn");
+            vsched::quiesce();
+            let a1 = a.clone();
+            let early = vsched::spawn("waiter", async move { a1.wait(None).await.is_ok() });
+            vsched::yield_now().await;
+            let a2 = a.clone();
+            let closer = vsched::spawn("closer", async move {
+                if drain {
+                    a2.drain_and_wait(None).await.is_ok()
+                } else {
+                    a2.stop_and_wait(None, None).await.is_ok()
+                }
+            });
+            let mut bad = Vec::new();
+            let c = closer.await.unwrap_or(false);
+            let st = a.get_status();
+            if !c || st != ActorStatus::Stopped {
+                bad.push(format!("the closing wait returned {c} with the status {st:?}"));
+            }
+            if !early.await.unwrap_or(false) {
+                bad.push("the waiter registered before the exit was not released with Ok".to_string());
+            }
+            if a.wait(None).await.is_err() || a.get_status() != ActorStatus::Stopped {
+                bad.push(format!("a wait after the exit: status {:?}", a.get_status()));
+            }
+            let _ = h.await;
+            if ractor::registry::where_is("A").is_some() {
+                bad.push("the name is still registered after the waits returned".to_string());
+            }
+            Outcome { key: format!("{st:?}"), violations: bad }
+        })
+    })
+}
+
 pub fn plan(tier: &str) -> Plan {
     let thorough = tier == "thorough";
     let filter: vsched::Filter = Arc::new(|k, _l, t| {
@@ -432,6 +494,11 @@ pub fn plan(tier: &str) -> Plan {
         units.push(Unit::explore_split(Job::new(format!("cleanup-once/{cause:?}+late-requests"), cfg.clone(), Some(bound), once_body_x(cause, true)), 4));
     }
     units.push(Unit::explore(Job::new("timeout/no-effect", t_cfg.clone(), Some(bound + 1), timeout_no_effect_body())));
+    for drain in [false, true] {
+        let mut c = cfg.clone();
+        c.tolerate_lib_panics = true;
+        units.push(Unit::explore(Job::new(format!("exit/state-destructor-panics/{}", if drain { "drain" } else { "stop" }), c, Some(bound), bomb_body(drain))));
+    }
     Plan {
         property: "C06",
         units,
